@@ -2,7 +2,7 @@
 {"props": ["C09"], "src": ["include/tlist.h"], "mode": "plain", "kind": "proved",
  "functions": ["timerlist_msec_duration_to_expire"],
  "stubs": ["pthread_mutex_* (sequential no-ops)", "qb_util_nano_current_get / qb_util_nano_from_epoch_get (ghost clocks, any 64-bit value)", "tick rate: case split 100 / 1000 / 10^9 per second (10^9 is what clock_getres gives on Linux)"],
- "expect_classes": ["assertion"], "timeout": 200, "cbmc_flags": ["--no-malloc-may-fail"],
+ "expect_classes": ["assertion"], "timeout": 100, "cbmc_flags": ["--no-malloc-may-fail"],
  "variants": [{"vname": "hz100", "defines": ["-DV_HZ=100"]}, {"vname": "hz1000", "defines": ["-DV_HZ=1000"]}, {"vname": "hz1e9", "defines": ["-DV_HZ=1000000000"]}]}
 */
 /* timerlist_msec_duration_to_expire for every 64-bit clock value and head expiry (loop-free; tick rate by case split):
@@ -47,8 +47,10 @@ void harness(void)
 		if (expire < now) {
 			POST(ms == 0, "no wait when the earliest timer is already due");
 		} else {
-			/* ms whole milliseconds end no later than the expiry plus one tick: ms - tick_ms <= floor((expire - now) / 1e6) */
-			POST(ms <= (expire - now) / QB_TIME_NS_IN_MSEC + tick_ms, "the wait ends no later than the earliest expiry plus one clock tick");
+			/* ms whole milliseconds end no later than the expiry plus one tick: (ms - tick_ms) * 10^6 ns <= expire - now
+			 * (stated with a multiplication: a second 64-bit division makes the solver time out) */
+			POST(ms <= tick_ms || (ms - tick_ms <= UINT64_MAX / QB_TIME_NS_IN_MSEC && (ms - tick_ms) * QB_TIME_NS_IN_MSEC <= expire - now),
+			     "the wait ends no later than the earliest expiry plus one clock tick");
 		}
 	}
 }
